@@ -68,9 +68,19 @@ func (e *Env) ghostAssign(c *specCtx, target *SExpr, v Value) {
 	if target.Kind == "id" {
 		if k, ok := e.w.Cs.Ghosts[target.Name]; ok {
 			n := "ghost$" + target.Name
-			if k == "bool" {
+			switch k {
+			case "bool":
 				e.assign(n, SBool, v.T)
-			} else {
+			case "seq":
+				switch v.K {
+				case VSlice:
+					e.assign(n, SArr, viewOf(Select(e.mem(), v.Ref), v.Off))
+				case VStr:
+					e.assign(n, SArr, viewOf(v.Arr, v.Off))
+				default:
+					e.errorf("ghost seq assignment from non-sequence")
+				}
+			default:
 				e.assign(n, SInt, v.T)
 			}
 			return
@@ -312,7 +322,10 @@ func (e *Env) storeTo(l ast.Expr, v Value) {
 			return
 		}
 		m := e.mem()
-		e.assign("Mem", SMem, Store(m, b.Ref, Store(Select(m, b.Ref), Add(b.Off, i.T), v.T)))
+		oldA := e.tmp(Select(m, b.Ref))
+		newA := e.tmp(Store(oldA, Add(b.Off, i.T), v.T))
+		e.assign("Mem", SMem, Store(m, b.Ref, newA))
+		e.noteUpdate(oldA, newA, Add(b.Off, i.T), True)
 	case *ast.StarExpr:
 		p := e.expr(x.X)
 		if p.K == VPtr && (v.K == VStruct || v.K == VPtr) {
